@@ -39,6 +39,7 @@ struct Log
     std::string cur;            // line being assembled by capture_stream
     int next_id = 0;
     const char* base = nullptr; // start of the caller's buffer (for lexeme offsets)
+    const std::string* text = nullptr;      // the text the caller put into the buffer
     size_t base_len = 0;
     size_t max_events = 2000000;
     bool overflow = false;
@@ -49,7 +50,7 @@ struct Log
     void note_sp(const char* p) { if (!sp_lo || p < sp_lo) sp_lo = p; if (!sp_hi || p > sp_hi) sp_hi = p; }
     void add(Event&& e) { char probe = 0; note_sp(&probe); if (ev.size() < max_events) ev.emplace_back(std::move(e)); else overflow = true; }
     std::vector<long> zdone;    // offsets at which a zero-length term was handed to its functor (= shifted)
-    void reset() { ev.clear(); cur.clear(); next_id = 0; base = nullptr; base_len = 0; overflow = false; ctxmut = 0; zdone.clear(); sp_lo = sp_hi = nullptr; }      // (object ids keep counting: objects may outlive a job)
+    void reset() { ev.clear(); cur.clear(); next_id = 0; base = nullptr; text = nullptr; base_len = 0; overflow = false; ctxmut = 0; zdone.clear(); sp_lo = sp_hi = nullptr; }      // (object ids keep counting: objects may outlive a job)
 };
 inline thread_local Log tl_log;
 
@@ -146,6 +147,7 @@ inline void vlog(const char* k, long a, long b) { Event e; e.k = k; e.a = { a, b
 #else
 #define VH_NOEXCEPT noexcept
 #endif
+struct Node2;
 struct Node
 {
     std::shared_ptr<Tree> t;
@@ -161,7 +163,7 @@ struct Node
     // rules WITHOUT a functor construct the left-side value from the right-side values: LValueType(values...).
     // The variadic constructor observes that call (a unit rule over a nonterminal is a plain move and has no event);
     // the initializer_list constructor exists only to be observed if it is ever chosen instead.
-    template<typename T> struct is_val : std::bool_constant<std::is_same_v<std::decay_t<T>, Node> || std::is_same_v<std::decay_t<T>, ctpg::no_type>
+    template<typename T> struct is_val : std::bool_constant<std::is_same_v<std::decay_t<T>, Node> || std::is_same_v<std::decay_t<T>, Node2> || std::is_same_v<std::decay_t<T>, ctpg::no_type>
                                                          || std::is_same_v<std::decay_t<T>, ctpg::term_value<Node>> || std::is_same_v<std::decay_t<T>, ctpg::term_value<ctpg::no_type>>> {};
     template<typename A0, typename... A,
              typename = std::enable_if_t<(is_val<A0>::value && ... && is_val<A>::value)
@@ -205,6 +207,9 @@ struct TermF
         tr->kind = 0; tr->sym = t; tr->id = L.next_id++;
         long off = -1;
         if (L.base && sv.data() >= L.base && sv.data() <= L.base + L.base_len) off = long(sv.data() - L.base);
+        // the lexeme is a slice of the text the CALLER handed over: same bytes (a view into the storage of another object -
+        // a buffer this one was copied or moved from - may sit at a plausible offset and still show something else)
+        if (off >= 0 && L.text && (size_t(off) + sv.size() > L.text->size() || L.text->compare(size_t(off), sv.size(), sv.data(), sv.size()) != 0)) off = -2;
         tr->off = off; tr->len = long(sv.size());
         if (sv.size() == 0) L.zdone.push_back(off);
         Event e; e.k = "tval"; e.a = { t, off, long(sv.size()), tr->id };
@@ -416,10 +421,16 @@ struct byte_lexer
 //  the library may read the referent, the object stays the caller's)
 struct Ctx { int mut = 0; int tag = 7; std::optional<Node> last; int refs = 0; };
 struct CtxMO { int mut = 0; int tag = 9; std::optional<Node> last; int refs = 0; CtxMO() = default; CtxMO(const CtxMO&) = delete; CtxMO& operator=(const CtxMO&) = delete; CtxMO(CtxMO&&) = default; };
+// a context type that overloads unary & (a handle / proxy class): the library must never find the caller's object by
+// writing &ctx - the functors would receive whatever that operator points at
+struct CtxAmp { int mut = 0; int tag = 11; std::optional<Node> last; int refs = 0; CtxAmp* operator&(); const CtxAmp* operator&() const; };
+inline CtxAmp& amp_decoy() { static thread_local CtxAmp d; return d; }
+inline CtxAmp* CtxAmp::operator&() { return std::addressof(amp_decoy()); }
+inline const CtxAmp* CtxAmp::operator&() const { return std::addressof(amp_decoy()); }
 inline thread_local const void* tl_ctx_addr = nullptr;
 
 // contextual rule functor (attached with >>=): logs which object it was handed (identity, constness), mutates it if allowed
-template<typename T> struct is_ctx : std::bool_constant<std::is_same_v<std::decay_t<T>, Ctx> || std::is_same_v<std::decay_t<T>, CtxMO> || std::is_same_v<std::decay_t<T>, ctpg::no_type>> {};
+template<typename T> struct is_ctx : std::bool_constant<std::is_same_v<std::decay_t<T>, Ctx> || std::is_same_v<std::decay_t<T>, CtxMO> || std::is_same_v<std::decay_t<T>, CtxAmp> || std::is_same_v<std::decay_t<T>, ctpg::no_type>> {};
 template<typename... X> struct first_is_ctx : std::false_type {};
 template<typename X0, typename... X> struct first_is_ctx<X0, X...> : is_ctx<X0> {};
 struct RuleFC
@@ -451,7 +462,7 @@ struct RuleFC
         tr->id = L.next_id++;
         constexpr bool is_const = std::is_const_v<std::remove_reference_t<C>>;
         // (parse() without a context hands contextual functors a no_type: there is no caller object to compare with)
-        long same = std::is_same_v<std::decay_t<C>, ctpg::no_type> ? 1 : (static_cast<const void*>(&ctx) == tl_ctx_addr ? 1 : 0);
+        long same = std::is_same_v<std::decay_t<C>, ctpg::no_type> ? 1 : (static_cast<const void*>(std::addressof(ctx)) == tl_ctx_addr ? 1 : 0);
         if constexpr (!is_const && !std::is_same_v<std::decay_t<C>, ctpg::no_type>) ctx.mut++;
         long lv = (0 + ... + (std::is_lvalue_reference_v<A> ? 1 : 0));
         Event e; e.k = "ccall"; e.a = { r, tr->id, same, is_const ? 1 : 0, lv }; e.lst = { ids, lines, cols };
@@ -596,7 +607,7 @@ std::optional<Node> parse_with(const P& p, const Job& j, std::string& stream_tex
     auto go = [&](const auto& buf) -> std::optional<Node>
     {
         std::string_view v0 = buf.get_view(buf.begin(), buf.begin());
-        L.base = v0.data(); L.base_len = j.bytes.size();
+        L.base = v0.data(); L.base_len = j.bytes.size(); L.text = &j.bytes;
         if (j.stream == 1)
         {
             if (j.verbose || !j.ws || !j.nl)
@@ -608,6 +619,7 @@ std::optional<Node> parse_with(const P& p, const Job& j, std::string& stream_tex
             }
             if (j.ctx == 1) { Ctx c; tl_ctx_addr = &c; auto r = p.context_parse(c, buf); L.ctxmut = ctx_after(c); return r; }      // context_parse(ctx, buffer)
             if (j.ctx == 2) { const Ctx c; tl_ctx_addr = &c; auto r = p.context_parse(c, buf); L.ctxmut = ctx_after(c); return r; }
+            if (j.ctx == 6) { CtxAmp c; tl_ctx_addr = std::addressof(c); auto r = p.context_parse(c, buf); L.ctxmut = ctx_after(c) + 1000 * amp_decoy().mut; amp_decoy().mut = 0; return r; }
             return p.parse(buf);
         }
         if (j.stream == 2)
@@ -635,12 +647,32 @@ std::optional<Node> parse_with(const P& p, const Job& j, std::string& stream_tex
         if (j.ctx == 2) { const Ctx c; tl_ctx_addr = &c; auto r = dflt_opts ? p.context_parse(c, buf, cs) : p.context_parse(c, o, buf, cs); L.ctxmut = ctx_after(c); return r; }
         if (j.ctx == 3) { Ctx c; tl_ctx_addr = &c; auto r = dflt_opts ? p.context_parse(std::move(c), buf, cs) : p.context_parse(std::move(c), o, buf, cs); L.ctxmut = ctx_after(c); return r; }
         if (j.ctx == 4) { CtxMO c; tl_ctx_addr = &c; auto r = dflt_opts ? p.context_parse(c, buf, cs) : p.context_parse(c, o, buf, cs); L.ctxmut = ctx_after(c); return r; }
+        if (j.ctx == 6) { CtxAmp c; tl_ctx_addr = std::addressof(c); auto r = dflt_opts ? p.context_parse(c, buf, cs) : p.context_parse(c, o, buf, cs); L.ctxmut = ctx_after(c) + 1000 * amp_decoy().mut; amp_decoy().mut = 0; return r; }
         { CtxMO c; tl_ctx_addr = &c; auto r = dflt_opts ? p.context_parse(std::move(c), buf, cs) : p.context_parse(std::move(c), o, buf, cs); L.ctxmut = ctx_after(c); return r; }
     };
     if (j.buf == 1)
     {
         // both constructors of string_buffer: from a std::string, and (texts without NUL, odd length) from a C string
         if (j.bytes.find('\0') == std::string::npos && j.bytes.size() % 2 == 1) { buffers::string_buffer b(j.bytes.c_str()); return go(b); }
+        // ... and buffers that were MOVED or COPIED before use (kept in a container, returned from a function): the source is
+        // overwritten / destroyed, the buffer parsed is the only holder of the text
+        const size_t how = (j.bytes.size() + j.id.size()) % 4;
+        if (how == 2)
+        {
+            buffers::string_buffer b0{std::string(j.bytes)};
+            buffers::string_buffer b(std::move(b0));
+            b0 = buffers::string_buffer(std::string(j.bytes.size() + 1, char(0x7f)));
+            return go(b);
+        }
+        if (how == 3)
+        {
+            auto src = std::make_unique<buffers::string_buffer>(std::string(j.bytes));
+            buffers::string_buffer b(*src);
+            src.reset();
+            std::string junk(j.bytes.size() + 1, char(0x7f));
+            auto r = go(b); (void)junk;
+            return r;
+        }
         buffers::string_buffer b{std::string(j.bytes)}; return go(b);
     }
     if (j.buf == 3) { checked_buffer b(j.bytes, 0); return go(b); }
